@@ -172,7 +172,14 @@ func (e *executor) wlCell(a opArgs, lean string) string {
 		ro := withReader(s, func() { p, err = r.Generate() })
 		capt.take()
 		if ro.panicked || err != nil || p == nil {
-			return "cell-generation-failed"
+			// the code does not make exactly the draws of the specified choice structure on this
+			// stream; what it does to the distribution is for the statistical check to say
+			out := "cell-generation-failed"
+			if wlPremise(wl) {
+				out += statMarginal(r, readBack(wl), L, a["words"]+a["cap"]+a["sep"])
+			}
+			capt.take()
+			return out
 		}
 		ent = p.Entropy
 		counts[showTokens(p.Tokens())]++
@@ -199,19 +206,13 @@ func (e *executor) wlCell(a opArgs, lean string) string {
 	r1.Capitalize = spg.CSNone
 	allcap := e1 > r1.Entropy()+0.5
 	// the property's premise: no two kept words share a title-cased form (C04, C06)
-	premise := true
-	seen := map[string]string{}
-	for _, w := range readBack(wl) {
-		t := strings.Title(w)
-		if o, ok := seen[t]; ok && o != w {
-			premise = false
-		}
-		seen[t] = w
-	}
+	premise := wlPremise(wl)
 	capt.take()
 	if !premise {
 		return out
 	}
+	out += statMarginal(r, readBack(wl), L, a["words"]+a["cap"]+a["sep"])
+	capt.take()
 	if allcap && maxm != minm {
 		out += " CELL-FAIL=not-uniform-although-all-capitalisable"
 	}
@@ -219,4 +220,159 @@ func (e *executor) wlCell(a opArgs, lean string) string {
 		out += fmt.Sprintf(" ENTROPY-OVERSTATED(p=%d/%d,entropy=%v)", maxm, total, ent)
 	}
 	return out
+}
+
+// statMarginal: a statistical check that does not depend on how many draws the implementation
+// makes or in which order (so it stays meaningful when the complete-cell enumeration above no
+// longer matches the code): over 12,000 pseudo-random streams the word at every position must be
+// uniform over the kept list, whatever the capitalisation (C04: "each of the Length words is
+// chosen uniformly … independently of every other choice"). The threshold is nine standard
+// deviations (a false alarm has probability below 1e-15 per count); the streams are derived from
+// the operation's own text, so a finding replays exactly.
+func statMarginal(r *spg.WLRecipe, kept []string, L int, seedText string) string {
+	size := len(kept)
+	if size < 2 || size > 12 || L < 1 || L > 6 {
+		return ""
+	}
+	idx := map[string]int{}
+	for i, w := range kept {
+		if w == "" {
+			return ""
+		}
+		idx[w] = i
+	}
+	for i, w := range kept {
+		if t := strings.Title(w); t != w {
+			if _, ok := idx[t]; !ok {
+				idx[t] = i
+			}
+		}
+	}
+	h := uint64(1469598103934665603)
+	for i := 0; i < len(seedText); i++ {
+		h = (h ^ uint64(seedText[i])) * 1099511628211
+	}
+	g := &rng{s: h}
+	const N = 12000
+	counts := make([][]int, L)
+	for i := range counts {
+		counts[i] = make([]int, size)
+	}
+	tape := make([]uint32, 8*L+32)
+	for n := 0; n < N; n++ {
+		for i := range tape {
+			tape[i] = g.u32()
+		}
+		sc := &scripted{bytes: wordsToBytes(tape)}
+		var p *spg.Password
+		var err error
+		ro := withReader(sc, func() { p, err = r.Generate() })
+		if ro.panicked || err != nil || p == nil {
+			return ""
+		}
+		atoms := p.Tokens().Atoms()
+		if len(atoms) != L {
+			return ""
+		}
+		for i, a := range atoms {
+			k, ok := idx[a]
+			if !ok {
+				return ""
+			}
+			counts[i][k]++
+		}
+	}
+	q := 1 / float64(size)
+	exp := N * q
+	sigma := math.Sqrt(N * q * (1 - q))
+	for i := range counts {
+		for k, c := range counts[i] {
+			if math.Abs(float64(c)-exp) > 9*sigma {
+				return fmt.Sprintf(" CELL-FAIL=word-marginal(position=%d,word=%s,count=%d,of=%d,expected=%.0f)", i, encCps(kept[k]), c, N, exp)
+			}
+		}
+	}
+	return ""
+}
+
+// wlPremise: the premise of C04/C06 — no two kept words share a title-cased form.
+func wlPremise(wl *spg.WordList) bool {
+	seen := map[string]string{}
+	for _, w := range readBack(wl) {
+		t := strings.Title(w)
+		if o, ok := seen[t]; ok && o != w {
+			return false
+		}
+		seen[t] = w
+	}
+	return true
+}
+
+// statCaps: over many pseudo-random streams, with every word capitalisable (so that every
+// capitalisation decision is visible), position i is capitalised with probability 1/2 under
+// `random` and 1/Length under `one` — for every position, also beyond 32 and 64. Nine standard
+// deviations, streams derived from the operation's text.
+func statCaps(r *spg.WLRecipe, kept []string, L int, scheme string, seedText string) string {
+	if L < 1 || L > 200 || len(kept) == 0 || (scheme != "random" && scheme != "one") {
+		return ""
+	}
+	lower := map[string]bool{}
+	for _, w := range kept {
+		if w == "" || strings.Title(w) == w {
+			return ""
+		}
+		lower[w] = true
+	}
+	for _, w := range kept {
+		if lower[strings.Title(w)] {
+			return ""
+		}
+	}
+	h := uint64(1469598103934665603)
+	for i := 0; i < len(seedText); i++ {
+		h = (h ^ uint64(seedText[i])) * 1099511628211
+	}
+	g := &rng{s: h}
+	N := 4000
+	q := 0.5
+	if scheme == "one" {
+		q = 1 / float64(L)
+		if N < 400*L {
+			N = 400 * L
+		}
+	}
+	counts := make([]int, L)
+	tape := make([]uint32, 6*L+32)
+	for n := 0; n < N; n++ {
+		for i := range tape {
+			tape[i] = g.u32()
+		}
+		sc := &scripted{bytes: wordsToBytes(tape)}
+		var p *spg.Password
+		var err error
+		ro := withReader(sc, func() { p, err = r.Generate() })
+		if ro.panicked || err != nil || p == nil {
+			return ""
+		}
+		atoms := p.Tokens().Atoms()
+		if len(atoms) != L {
+			return ""
+		}
+		for i, a := range atoms {
+			if !lower[a] {
+				counts[i]++
+			}
+		}
+	}
+	exp := float64(N) * q
+	sigma := math.Sqrt(float64(N) * q * (1 - q))
+	if sigma == 0 {
+		return ""
+	}
+	for i, c := range counts {
+		if math.Abs(float64(c)-exp) > 9*sigma {
+			return fmt.Sprintf(" CELL-FAIL=capitalisation-marginal(position=%d,capitalised=%d,of=%d,expected=%.0f)", i, c, N, exp)
+		}
+	}
+	return ""
 }
